@@ -23,7 +23,14 @@ Decisions about differences that are *not* violations (see design.d/C11.md):
 * trailing absent (-1) operands are not significant (CONV_2D [x, w] ≡ [x, w, -1]);
 * source operators that reach no output may disappear;
 * SHAPE, and operators all of whose operands are constants, may be replaced by a constant tensor of the same
-  name, shape, type and quantisation (value correctness belongs to C01).
+  name, shape, type and quantisation (value correctness belongs to C01);
+* an NPU-supported operator that is an identity by construction (RESIZE_BILINEAR / RESIZE_NEAREST_NEIGHBOR to the
+  same size, SPLIT into one part; same shape, type and quantisation on both sides) may be removed; a preserved
+  consumer then reads the removed operator's input ("bypassed");
+* Vela may create new tensors between two Ethos-U operators; they must stay private to Ethos-U operators.
+
+The fixpoint iterations (`slice`, `foldable`) are run with a fuel and the result is *checked* to be closed
+(`closedProblems`), so the soundness theorems do not depend on the fuel being sufficient.
 -/
 namespace VelaVerif.Preserve
 
@@ -127,8 +134,10 @@ def stripTrailingNone : List (Option Nat) → List (Option Nat)
 
 /-! ## well-formedness and topological order -/
 
-def dups [BEq α] (l : List α) : List α :=
-  l.zipIdx.filterMap fun (x, i) => if (l.take i).contains x then some x else none
+/-- the elements that occur again later in the list -/
+def dups [BEq α] : List α → List α
+  | [] => []
+  | x :: xs => (if xs.contains x then [x] else []) ++ dups xs
 
 def inRange (g : PGraph) (i : Nat) : Bool := i < g.tensors.length
 
@@ -213,93 +222,6 @@ def foldable (g : PGraph) : List Nat := iter (g.ops.length + 1) (foldStep g) []
 def producedByFoldable (g : PGraph) (t : Nat) : Bool :=
   (foldable g).any fun j => (opOutputs g j).contains t
 
-/-! ## matching of preserved operators -/
-
-def outKey (g : PGraph) (op : POp) : List (Option String) := op.outputs.map (nameAt g)
-
-def candidates (src out : PGraph) (op : POp) : List Nat :=
-  (src.ops.zipIdx.filter fun (sop, _) => outKey src sop == outKey out op).map (·.2)
-
-def matchOf (src out : PGraph) (op : POp) : Option Nat :=
-  match candidates src out op with
-  | [j] => some j
-  | _ => none
-
-/-- the (output position, source position) pairs of the preserved operators -/
-def matchTable (src out : PGraph) : List (Nat × Nat) :=
-  out.ops.zipIdx.filterMap fun (op, k) =>
-    if isEthosU op then none else (matchOf src out op).map fun j => (k, j)
-
-/-- operand wiring: same tensor description, same constant data; a source tensor computed by a foldable
-    operator may have become a constant -/
-def operandEq (src : PGraph) (si : Nat) (ts to : PTensor) : Bool :=
-  descEq ts to && (ts.const == to.const || (ts.const.isNone && to.const.isSome && producedByFoldable src si))
-
-def operandProblems (src out : PGraph) (k b : Nat) (si oi : List (Option Nat)) : List Problem :=
-  let si := stripTrailingNone si
-  let oi := stripTrailingNone oi
-  if si.length ≠ oi.length then [⟨"operand-count", s!"operator {k} (builtin {b}): source {si.length} output {oi.length}"⟩] else
-  (si.zip oi).zipIdx.filterMap fun ((a, b'), pos) =>
-    match a, b' with
-    | none, none => none
-    | some a, some b' =>
-      match src.tensors[a]?, out.tensors[b']? with
-      | some ta, some tb =>
-        if operandEq src a ta tb then none
-        else if ta.name != tb.name then some ⟨"operand-wiring", s!"operator {k} (builtin {b}) operand {pos}: {ta.name} vs {tb.name}"⟩
-        else if ta.shape != tb.shape then some ⟨"operand-shape", s!"operator {k} (builtin {b}) operand {pos} {ta.name}: {ta.shape} vs {tb.shape}"⟩
-        else if ta.dtype != tb.dtype then some ⟨"operand-type", s!"operator {k} (builtin {b}) operand {pos} {ta.name}: {ta.dtype} vs {tb.dtype}"⟩
-        else if normQuant ta.quant != normQuant tb.quant then some ⟨"operand-quantisation", s!"operator {k} (builtin {b}) operand {pos} {ta.name}"⟩
-        else if ta.const != tb.const then some ⟨"operand-constant-data", s!"operator {k} (builtin {b}) operand {pos} {ta.name}: {ta.const} vs {tb.const}"⟩
-        else some ⟨"operand-description", s!"operator {k} (builtin {b}) operand {pos} {ta.name}"⟩
-      | _, _ => some ⟨"dangling-index", s!"operator {k} operand {pos}"⟩
-    | _, _ => some ⟨"operand-presence", s!"operator {k} (builtin {b}) operand {pos}: optional operand present on one side only"⟩
-
-def resultProblems (src out : PGraph) (k b : Nat) (so oo : List Nat) : List Problem :=
-  (so.zip oo).zipIdx.filterMap fun ((a, b'), pos) =>
-    match src.tensors[a]?, out.tensors[b']? with
-    | some ta, some tb =>
-      if descEq ta tb && ta.const == tb.const then none
-      else if ta.shape != tb.shape then some ⟨"result-shape", s!"operator {k} (builtin {b}) result {pos} {ta.name}: {ta.shape} vs {tb.shape}"⟩
-      else if ta.dtype != tb.dtype then some ⟨"result-type", s!"operator {k} (builtin {b}) result {pos} {ta.name}: {ta.dtype} vs {tb.dtype}"⟩
-      else if normQuant ta.quant != normQuant tb.quant then some ⟨"result-quantisation", s!"operator {k} (builtin {b}) result {pos} {ta.name}"⟩
-      else some ⟨"result-description", s!"operator {k} (builtin {b}) result {pos} {ta.name}"⟩
-    | _, _ => some ⟨"dangling-index", s!"operator {k} result {pos}"⟩
-
-def opProblems (src out : PGraph) (k : Nat) (sop oop : POp) : List Problem :=
-  (if sop.builtin != oop.builtin then [⟨"builtin-code", s!"operator {k} (builtin {sop.builtin}): {sop.builtin} vs {oop.builtin}"⟩] else []) ++
-  (if sop.custom != oop.custom then [⟨"custom-code", s!"operator {k} (builtin {sop.builtin}): {sop.custom} vs {oop.custom}"⟩] else []) ++
-  (if sop.version != oop.version then [⟨"version", s!"operator {k} (builtin {sop.builtin}): {sop.version} vs {oop.version}"⟩] else []) ++
-  (if !optsEq sop.opts oop.opts then [⟨"options", s!"operator {k} (builtin {sop.builtin}): type {sop.opts.type} {sop.opts.fields} vs type {oop.opts.type} {oop.opts.fields}"⟩] else []) ++
-  (if sop.customOpts != oop.customOpts then [⟨"custom-options", s!"operator {k} (builtin {sop.builtin}): {sop.customOpts} vs {oop.customOpts}"⟩] else []) ++
-  operandProblems src out k sop.builtin sop.inputs oop.inputs ++ resultProblems src out k sop.builtin sop.outputs oop.outputs
-
-def opEq (src out : PGraph) (k : Nat) (sop oop : POp) : Bool := (opProblems src out k sop oop).isEmpty
-
-def matchProblems (src out : PGraph) : List Problem :=
-  (out.ops.zipIdx.flatMap fun (op, k) =>
-    if isEthosU op then [] else
-    match candidates src out op with
-    | [j] =>
-      match src.ops[j]? with
-      | some sop => opProblems src out k sop op
-      | none => [⟨"internal", "candidate out of range"⟩]
-    | [] => [⟨"operator-without-source", s!"output operator {k} (builtin {op.builtin}) produces {outKey out op}: no source operator produces these tensors"⟩]
-    | js => [⟨"operator-ambiguous-source", s!"output operator {k}: source operators {js} produce the same tensor names"⟩]) ++
-  ((dups ((matchTable src out).map (·.2))).map fun j => ⟨"operator-duplicated", s!"source operator {j} appears more than once in the output"⟩)
-
-/-- Bool form of the matching check used by the soundness theorem -/
-def matchOk (src out : PGraph) : Bool :=
-  (out.ops.zipIdx.all fun (op, k) =>
-    isEthosU op ||
-    match candidates src out op with
-    | [j] =>
-      (match src.ops[j]? with
-       | some sop => opEq src out k sop op
-       | none => false)
-    | _ => false) &&
-  (dups ((matchTable src out).map (·.2))).isEmpty
-
 /-! ## absorbed operators -/
 
 def sliceStep (g : PGraph) (start stop S : List Nat) : List Nat :=
@@ -364,6 +286,145 @@ def absorbProblems (src : PGraph) (a : Absorb) : List Problem :=
     if a.stop.contains t || isConstAt src t || isVarAt src t || producerIn src a.ops t then none
     else some ⟨"ethosu-missing-operand", s!"Ethos-U operator {a.pos} absorbs source operator {j} whose operand {(nameAt src t).getD "?"} is not among its operands"⟩)
 
+def isAbsorbed (abs : List Absorb) (j : Nat) : Bool := abs.any fun x => x.ops.contains j
+
+/-! ## matching of preserved operators (by the names of their results) -/
+
+def outKey (g : PGraph) (op : POp) : List (Option String) := op.outputs.map (nameAt g)
+
+def candidates (src out : PGraph) (op : POp) : List Nat :=
+  (src.ops.zipIdx.filter fun (sop, _) => outKey src sop == outKey out op).map (·.2)
+
+def matchOf (src out : PGraph) (op : POp) : Option Nat :=
+  match candidates src out op with
+  | [j] => some j
+  | _ => none
+
+/-- the (output position, source position) pairs of the preserved operators -/
+def matchTable (src out : PGraph) : List (Nat × Nat) :=
+  out.ops.zipIdx.filterMap fun (op, k) =>
+    if isEthosU op then none else (matchOf src out op).map fun j => (k, j)
+
+def matchCount (table : List (Nat × Nat)) (j : Nat) : Nat := (table.filter fun p => p.2 == j).length
+
+/-! ## bypassed identity operators -/
+
+/-- RESIZE_BILINEAR, RESIZE_NEAREST_NEIGHBOR, SPLIT: identities when input and output have the same shape -/
+def bypassBuiltins : List Nat := [23, 97, 49]
+
+/-- the data operand of source operator `j` if `j` is an identity by construction -/
+def bypassInput (g : PGraph) (j : Nat) : Option Nat :=
+  match g.ops[j]? with
+  | some o =>
+    if bypassBuiltins.contains o.builtin then
+      match o.outputs, (presentInputs o).filter (fun t => !isConstAt g t) with
+      | [r], [x] =>
+        match g.tensors[r]?, g.tensors[x]? with
+        | some tr, some tx =>
+          if tr.shape == tx.shape && tr.dtype == tx.dtype && normQuant tr.quant == normQuant tx.quant then some x else none
+        | _, _ => none
+      | _, _ => none
+    else none
+  | none => none
+
+/-- source operators that are neither preserved nor absorbed and are identities by construction -/
+def bypassedOps (src : PGraph) (table : List (Nat × Nat)) (abs : List Absorb) : List Nat :=
+  (List.range src.ops.length).filter fun j => matchCount table j == 0 && !isAbsorbed abs j && (bypassInput src j).isSome
+
+/-- follow a source tensor up through bypassed operators -/
+def resolve (src : PGraph) (byp : List Nat) : Nat → Nat → Nat
+  | 0, t => t
+  | fuel + 1, t =>
+    match byp.find? fun j => (opOutputs src j).contains t with
+    | some j =>
+      match bypassInput src j with
+      | some x => resolve src byp fuel x
+      | none => t
+    | none => t
+
+/-! ## comparison of a preserved operator with its source -/
+
+/-- operand wiring: same tensor description, same constant data; a source tensor computed by a foldable
+    operator may have become a constant -/
+def operandEq (src : PGraph) (si : Nat) (ts to : PTensor) : Bool :=
+  descEq ts to && (ts.const == to.const || (ts.const.isNone && to.const.isSome && producedByFoldable src si))
+
+/-- … or the same after looking through bypassed identity operators -/
+def operandEqUpTo (src : PGraph) (byp : List Nat) (si : Nat) (to : PTensor) : Bool :=
+  (match src.tensors[si]? with
+   | some ts => operandEq src si ts to
+   | none => false) ||
+  (let si' := resolve src byp src.ops.length si
+   si' != si &&
+   match src.tensors[si']? with
+   | some ts => operandEq src si' ts to
+   | none => false)
+
+def operandProblems (src out : PGraph) (byp : List Nat) (k b : Nat) (si oi : List (Option Nat)) : List Problem :=
+  let si := stripTrailingNone si
+  let oi := stripTrailingNone oi
+  if si.length ≠ oi.length then [⟨"operand-count", s!"operator {k} (builtin {b}): source {si.length} output {oi.length}"⟩] else
+  (si.zip oi).zipIdx.filterMap fun ((a, b'), pos) =>
+    match a, b' with
+    | none, none => none
+    | some a, some b' =>
+      match src.tensors[a]?, out.tensors[b']? with
+      | some ta, some tb =>
+        if operandEqUpTo src byp a tb then none
+        else if ta.name != tb.name then some ⟨"operand-wiring", s!"operator {k} (builtin {b}) operand {pos}: {ta.name} vs {tb.name}"⟩
+        else if ta.shape != tb.shape then some ⟨"operand-shape", s!"operator {k} (builtin {b}) operand {pos} {ta.name}: {ta.shape} vs {tb.shape}"⟩
+        else if ta.dtype != tb.dtype then some ⟨"operand-type", s!"operator {k} (builtin {b}) operand {pos} {ta.name}: {ta.dtype} vs {tb.dtype}"⟩
+        else if normQuant ta.quant != normQuant tb.quant then some ⟨"operand-quantisation", s!"operator {k} (builtin {b}) operand {pos} {ta.name}"⟩
+        else if ta.const != tb.const then some ⟨"operand-constant-data", s!"operator {k} (builtin {b}) operand {pos} {ta.name}: {ta.const} vs {tb.const}"⟩
+        else some ⟨"operand-description", s!"operator {k} (builtin {b}) operand {pos} {ta.name}"⟩
+      | _, _ => some ⟨"dangling-index", s!"operator {k} operand {pos}"⟩
+    | _, _ => some ⟨"operand-presence", s!"operator {k} (builtin {b}) operand {pos}: optional operand present on one side only"⟩
+
+def resultProblems (src out : PGraph) (k b : Nat) (so oo : List Nat) : List Problem :=
+  (so.zip oo).zipIdx.filterMap fun ((a, b'), pos) =>
+    match src.tensors[a]?, out.tensors[b']? with
+    | some ta, some tb =>
+      if descEq ta tb && ta.const == tb.const then none
+      else if ta.shape != tb.shape then some ⟨"result-shape", s!"operator {k} (builtin {b}) result {pos} {ta.name}: {ta.shape} vs {tb.shape}"⟩
+      else if ta.dtype != tb.dtype then some ⟨"result-type", s!"operator {k} (builtin {b}) result {pos} {ta.name}: {ta.dtype} vs {tb.dtype}"⟩
+      else if normQuant ta.quant != normQuant tb.quant then some ⟨"result-quantisation", s!"operator {k} (builtin {b}) result {pos} {ta.name}"⟩
+      else some ⟨"result-description", s!"operator {k} (builtin {b}) result {pos} {ta.name}"⟩
+    | _, _ => some ⟨"dangling-index", s!"operator {k} result {pos}"⟩
+
+def opProblems (src out : PGraph) (byp : List Nat) (k : Nat) (sop oop : POp) : List Problem :=
+  (if sop.builtin != oop.builtin then [⟨"builtin-code", s!"operator {k} (builtin {sop.builtin}): {sop.builtin} vs {oop.builtin}"⟩] else []) ++
+  (if sop.custom != oop.custom then [⟨"custom-code", s!"operator {k} (builtin {sop.builtin}): {sop.custom} vs {oop.custom}"⟩] else []) ++
+  (if sop.version != oop.version then [⟨"version", s!"operator {k} (builtin {sop.builtin}): {sop.version} vs {oop.version}"⟩] else []) ++
+  (if !optsEq sop.opts oop.opts then [⟨"options", s!"operator {k} (builtin {sop.builtin}): type {sop.opts.type} {sop.opts.fields} vs type {oop.opts.type} {oop.opts.fields}"⟩] else []) ++
+  (if sop.customOpts != oop.customOpts then [⟨"custom-options", s!"operator {k} (builtin {sop.builtin}): {sop.customOpts} vs {oop.customOpts}"⟩] else []) ++
+  operandProblems src out byp k sop.builtin sop.inputs oop.inputs ++ resultProblems src out k sop.builtin sop.outputs oop.outputs
+
+def opEq (src out : PGraph) (byp : List Nat) (k : Nat) (sop oop : POp) : Bool := (opProblems src out byp k sop oop).isEmpty
+
+def matchProblems (src out : PGraph) (byp : List Nat) : List Problem :=
+  (out.ops.zipIdx.flatMap fun (op, k) =>
+    if isEthosU op then [] else
+    match candidates src out op with
+    | [j] =>
+      match src.ops[j]? with
+      | some sop => opProblems src out byp k sop op
+      | none => [⟨"internal", "candidate out of range"⟩]
+    | [] => [⟨"operator-without-source", s!"output operator {k} (builtin {op.builtin}) produces {outKey out op}: no source operator produces these tensors"⟩]
+    | js => [⟨"operator-ambiguous-source", s!"output operator {k}: source operators {js} produce the same tensor names"⟩]) ++
+  ((dups ((matchTable src out).map (·.2))).map fun j => ⟨"operator-duplicated", s!"source operator {j} appears more than once in the output"⟩)
+
+/-- Bool form of the matching check used by the soundness theorem -/
+def matchOk (src out : PGraph) (byp : List Nat) : Bool :=
+  (out.ops.zipIdx.all fun (op, k) =>
+    isEthosU op ||
+    match candidates src out op with
+    | [j] =>
+      (match src.ops[j]? with
+       | some sop => opEq src out byp k sop op
+       | none => false)
+    | _ => false) &&
+  (dups ((matchTable src out).map (·.2))).isEmpty
+
 /-! ## coverage of the source -/
 
 def reach (src : PGraph) : List Nat := slice src src.outputs []
@@ -372,35 +433,51 @@ structure Cover where
   preserved : Nat
   absorbed : Nat
   folded : Nat
+  bypassed : Nat
   dead : Nat
   problems : List Problem
 deriving Repr
 
-def matchCount (table : List (Nat × Nat)) (j : Nat) : Nat := (table.filter fun p => p.2 == j).length
+/-- a bypassed operator must really be gone: no output tensor carries the name of its result -/
+def bypassGone (src out : PGraph) (j : Nat) : Bool :=
+  (opOutputs src j).all fun t =>
+    match nameAt src t with
+    | some n => (findByName out n).isNone
+    | none => true
 
-def coverOne (src : PGraph) (table : List (Nat × Nat)) (abs : List Absorb) (j : Nat) : Option Problem :=
+def coverOne (src out : PGraph) (table : List (Nat × Nat)) (abs : List Absorb) (byp : List Nat) (j : Nat) : Option Problem :=
   let m := matchCount table j
   let a := abs.filter fun x => x.ops.contains j
   let bi := (src.ops[j]?.map (·.builtin)).getD 0
   if m > 1 then some ⟨"operator-duplicated", s!"source operator {j} (builtin {bi}) appears {m} times in the output"⟩
   else if m == 1 && !a.isEmpty then some ⟨"preserved-and-absorbed", s!"source operator {j} (builtin {bi}) is kept on the CPU and also lies inside Ethos-U operator {a.map (·.pos)}"⟩
-  else if m == 0 && a.isEmpty && !(foldable src).contains j then
-    some ⟨"operator-lost", s!"source operator {j} (builtin {bi}) reaches an output but is neither preserved, absorbed nor foldable"⟩
+  else if m == 0 && a.isEmpty && !(foldable src).contains j && !(byp.contains j && bypassGone src out j) then
+    some ⟨"operator-lost", s!"source operator {j} (builtin {bi}) reaches an output but is neither preserved, absorbed, foldable nor a removed identity"⟩
   else none
 
-def coverOk (src : PGraph) (table : List (Nat × Nat)) (abs : List Absorb) : Bool :=
-  (reach src).all fun j => (coverOne src table abs j).isNone
+def coverOk (src out : PGraph) (table : List (Nat × Nat)) (abs : List Absorb) (byp : List Nat) : Bool :=
+  (reach src).all fun j => (coverOne src out table abs byp j).isNone
 
-def cover (src out : PGraph) : Cover :=
-  let table := matchTable src out
-  let abs := absorbs src out
+def cover (src out : PGraph) (table : List (Nat × Nat)) (abs : List Absorb) (byp : List Nat) : Cover :=
   let r := reach src
-  let isAbs (j : Nat) : Bool := abs.any fun x => x.ops.contains j
+  let un (j : Nat) : Bool := matchCount table j == 0 && !isAbsorbed abs j
   { preserved := (r.filter fun j => matchCount table j ≥ 1).length,
-    absorbed := (r.filter fun j => matchCount table j == 0 && isAbs j).length,
-    folded := (r.filter fun j => matchCount table j == 0 && !isAbs j && (foldable src).contains j).length,
+    absorbed := (r.filter fun j => matchCount table j == 0 && isAbsorbed abs j).length,
+    folded := (r.filter fun j => un j && (foldable src).contains j).length,
+    bypassed := (r.filter fun j => un j && !(foldable src).contains j && byp.contains j).length,
     dead := src.ops.length - r.length,
-    problems := (r.filterMap (coverOne src table abs)) ++ abs.flatMap (absorbProblems src) }
+    problems := (r.filterMap (coverOne src out table abs byp)) ++ abs.flatMap (absorbProblems src) }
+
+/-! ## the fuelled fixpoints are checked, not trusted -/
+
+def sliceClosed (g : PGraph) (start stop S : List Nat) : Bool := sliceStep g start stop S == S
+
+def foldClosed (g : PGraph) (S : List Nat) : Bool := foldStep g S == S
+
+def closedProblems (src : PGraph) (abs : List Absorb) : List Problem :=
+  (if sliceClosed src src.outputs [] (reach src) then [] else [⟨"internal", "reachability iteration did not reach a fixpoint"⟩]) ++
+  (if foldClosed src (foldable src) then [] else [⟨"internal", "foldable iteration did not reach a fixpoint"⟩]) ++
+  (abs.filterMap fun a => if sliceClosed src a.start a.stop a.ops then none else some ⟨"internal", s!"slice of Ethos-U operator {a.pos} did not reach a fixpoint"⟩)
 
 /-! ## verdict -/
 
@@ -413,9 +490,13 @@ deriving Repr
 
 def check (src out : PGraph) : Verdict :=
   let pre := wellFormedProblems src ++ topoProblems src
-  let c := cover src out
+  let table := matchTable src out
+  let abs := absorbs src out
+  let byp := bypassedOps src table abs
+  let c := cover src out table abs byp
   { pre := pre,
-    problems := interfaceProblems src out ++ wellFormedProblems out ++ topoProblems out ++ matchProblems src out ++ c.problems,
+    problems := interfaceProblems src out ++ wellFormedProblems out ++ topoProblems out ++ matchProblems src out byp ++ c.problems ++
+      closedProblems src abs,
     cover := c,
     ethosu := (out.ops.filter isEthosU).length }
 
